@@ -1,20 +1,32 @@
 // ---- prelude/pagenode_types.rs: element types behind a PageNode (stand-ins; raw-pointer key access is assumed) ----
 // keys are byte strings; `key_seq` is the key of one element
-pub trait HasKey {
+trait HasKey {
     spec fn key_seq(&self) -> Seq<u8>;
 }
 #[verifier::external_body]
 pub struct Bytes<'a> { _p: core::marker::PhantomData<&'a ()> }
 impl HasKey for LeafElement { uninterp spec fn key_seq(&self) -> Seq<u8>; }
 impl HasKey for BranchElement { uninterp spec fn key_seq(&self) -> Seq<u8>; }
-impl<'a> HasKey for Branch<'a> { uninterp spec fn key_seq(&self) -> Seq<u8>; }
-impl<'a> HasKey for Leaf<'a> { uninterp spec fn key_seq(&self) -> Seq<u8>; }
+// the bytes a `Bytes` value denotes (unit bytes proves that ordering / equality of Bytes are those of this view)
+pub uninterp spec fn bytes_view(b: Bytes) -> Seq<u8>;
+impl<'a> Clone for Bytes<'a> {
+    #[verifier::external_body]
+    fn clone(&self) -> (r: Self)
+        ensures bytes_view(r) == bytes_view(*self),
+    { unimplemented!() }
+}
+impl<'a> HasKey for Branch<'a> { spec fn key_seq(&self) -> Seq<u8> { bytes_view(self.key) } }
+impl<'a> HasKey for Leaf<'a> {
+    spec fn key_seq(&self) -> Seq<u8> {
+        match *self { Leaf::Bucket(n, _) => bytes_view(n), Leaf::Kv(k, _) => bytes_view(k) }
+    }
+}
 //@include prelude/keyorder.rs
-pub open spec fn keys_ascending<E: HasKey>(s: Seq<E>) -> bool {
+spec fn keys_ascending<E: HasKey>(s: Seq<E>) -> bool {
     forall|i: int, j: int| 0 <= i < j < s.len() ==> slice_lt::<u8>(#[trigger] s[i].key_seq(), #[trigger] s[j].key_seq())
 }
 // rule R6: `X.binary_search_by_key(&key, |e| e.key())` -> `X.bsearch_by_key_v(key)`; std's contract for a slice sorted by key
-pub open spec fn bsearch_ok<E: HasKey>(s: Seq<E>, key: Seq<u8>, r: core::result::Result<usize, usize>) -> bool {
+spec fn bsearch_ok<E: HasKey>(s: Seq<E>, key: Seq<u8>, r: core::result::Result<usize, usize>) -> bool {
     &&& r matches Ok(i) ==> i < s.len() && s[i as int].key_seq() == key
     &&& r matches Err(i) ==> i <= s.len()
     &&& keys_ascending(s) ==> (r matches Err(i) ==> {
@@ -22,18 +34,18 @@ pub open spec fn bsearch_ok<E: HasKey>(s: Seq<E>, key: Seq<u8>, r: core::result:
             &&& forall|j: int| i <= j < s.len() ==> slice_lt::<u8>(key, #[trigger] s[j].key_seq())
         })
 }
-pub trait BSearchByKey<E: HasKey> {
+trait BSearchByKey<E: HasKey> {
     spec fn elems(&self) -> Seq<E>;
     fn bsearch_by_key_v(&self, key: &[u8]) -> (r: core::result::Result<usize, usize>)
         ensures bsearch_ok(self.elems(), key@, r);
 }
 impl<E: HasKey> BSearchByKey<E> for [E] {
-    open spec fn elems(&self) -> Seq<E> { self@ }
+    spec fn elems(&self) -> Seq<E> { self@ }
     #[verifier::external_body]
     fn bsearch_by_key_v(&self, key: &[u8]) -> (r: core::result::Result<usize, usize>) { unimplemented!() }
 }
 impl<E: HasKey> BSearchByKey<E> for Vec<E> {
-    open spec fn elems(&self) -> Seq<E> { self@ }
+    spec fn elems(&self) -> Seq<E> { self@ }
     #[verifier::external_body]
     fn bsearch_by_key_v(&self, key: &[u8]) -> (r: core::result::Result<usize, usize>) { unimplemented!() }
 }
@@ -49,11 +61,11 @@ fn page_branch_elements_cast<'a>(p: &'a Page) -> (r: &'a [BranchElement])
 impl<'a> Leaf<'a> {
     // node.rs Leaf::key: the key bytes (Bytes::as_ref; assumed)
     #[verifier::external_body]
-    pub fn key(&self) -> (r: &[u8])
+    fn key(&self) -> (r: &[u8])
         ensures r@ == self.key_seq(),
     { unimplemented!() }
     // node.rs Leaf::from_leaf: builds a Leaf over the element's key/value bytes (raw-pointer reads; assumed)
     #[verifier::external_body]
-    pub fn from_leaf<'b>(l: &'b LeafElement) -> (r: Leaf<'a>)
+    fn from_leaf<'b>(l: &'b LeafElement) -> (r: Leaf<'a>)
     { unimplemented!() }
 }
